@@ -22,44 +22,54 @@ Fixpoint eng_members (cls in_class : bool) (t : list nat) : option (list nat) :=
   end.
 
 (* members_ok, and every collating symbol and equivalence class on the way names an ordinary character *)
-Fixpoint members_strict (fuel : nat) (cls first : bool) (m : list nat) : option (list nat) :=
+Fixpoint members_strict (fuel : nat) (cls : bool) (st : rstate) (m : list nat) : option (list nat) :=
   match fuel with
   | 0 => None
   | S f =>
     match next_sq m with
     | None => None
     | Some (before, c, after) =>
-        if c =? c_rb then Some after
-        else match after with
+        if c =? c_rb then (match scan_members before st true with Some _ => Some after | None => None end)
+        else
+        match scan_members before st false with
+        | None => None
+        | Some st1 =>
+             match after with
              | d :: inner =>
                  if cls && (d =? c_colon) then
                    match find_close c_colon inner with
-                   | Some (name, rest) => if existsb (w_eqb name) regex_class_names then members_strict f cls false rest else None
+                   | Some (name, rest) => if existsb (w_eqb name) regex_class_names then members_strict f cls RNo rest else None
                    | None => None
                    end
                  else if (d =? c_dot) || (d =? c_eq) then
                    match find_close d inner with
                    | Some ([x], rest) =>
-                       if (d =? c_eq) && (open_range (negb first) before || dash_with_end rest) then None
-                       else if ordinary x then members_strict f cls false rest else None
+                       if (d =? c_eq) && (rstate_eqb st1 ROpen || dash_with_end rest) then None
+                       else if ordinary x then members_strict f cls (if d =? c_eq then RNo else if rstate_eqb st1 ROpen then RDone else RStart) rest
+                            else None
                    | _ => None
                    end
-                 else members_strict f cls false after
-             | [] => members_strict f cls false after
+                 else (match scan_members [c_lb] st1 false with Some st2 => members_strict f cls st2 after | None => None end)
+             | [] => (match scan_members [c_lb] st1 false with Some st2 => members_strict f cls st2 after | None => None end)
              end
+        end
     end
   end.
-Lemma strict_ok : forall fuel cls first m r, members_strict fuel cls first m = Some r -> members_ok fuel cls first m = Some r.
+Lemma strict_ok : forall fuel cls st m r, members_strict fuel cls st m = Some r -> members_ok fuel cls st m = Some r.
 Proof.
-  induction fuel as [|f IH]; intros cls first m r H; [discriminate|]. cbn [members_strict members_ok] in *.
+  induction fuel as [|f IH]; intros cls st m r H; [discriminate|]. cbn [members_strict members_ok] in *.
   destruct (next_sq m) as [[[before c] after]|]; [|discriminate].
-  destruct (c =? c_rb); [exact H|]. destruct after as [|d inner]; [now apply IH|].
+  destruct (c =? c_rb); [exact H|].
+  destruct (scan_members before st false) as [st1|]; [|discriminate].
+  destruct after as [|d inner].
+  { destruct (scan_members [c_lb] st1 false) as [st2|]; [now apply IH|discriminate]. }
   destruct (cls && (d =? c_colon)).
   { destruct (find_close c_colon inner) as [[name rest]|]; [|discriminate].
     destruct (existsb (w_eqb name) regex_class_names); [now apply IH|discriminate]. }
-  destruct ((d =? c_dot) || (d =? c_eq)); [|now apply IH].
+  destruct ((d =? c_dot) || (d =? c_eq)).
+  2:{ destruct (scan_members [c_lb] st1 false) as [st2|]; [now apply IH|discriminate]. }
   destruct (find_close d inner) as [[[|x [|y l]] rest]|]; try discriminate.
-  destruct ((d =? c_eq) && (open_range (negb first) before || dash_with_end rest)); [discriminate|].
+  destruct ((d =? c_eq) && (rstate_eqb st1 ROpen || dash_with_end rest)); [discriminate|].
   destruct (ordinary x); [now apply IH|discriminate].
 Qed.
 
@@ -153,12 +163,12 @@ Proof.
   - destruct (ordinary_facts h Ho) as (F1 & F2 & F3 & F4 & F5). destruct Hg as [-> | [-> | ->]]; assumption.
 Qed.
 
-Lemma bracket_agree cls : forall fuel first m rest, members_strict fuel cls first m = Some rest ->
+Lemma bracket_agree cls : forall fuel st m rest, members_strict fuel cls st m = Some rest ->
   exists body, collp cls (CB false false) m = body ++ collp cls CT rest /\
                (forall k, eng_members cls false (body ++ k) = Some k) /\
                (forall d m', m = d :: m' -> exists h b', body = h :: b' /\ head_kind h d).
 Proof.
-  induction fuel as [|f IH]; intros first m rest H; [discriminate|]. cbn [members_strict] in H.
+  induction fuel as [|f IH]; intros st m rest H; [discriminate|]. cbn [members_strict] in H.
   destruct (next_sq m) as [[[b c] a]|] eqn:En; [|discriminate].
   destruct (next_sq_spec _ _ _ _ En) as (-> & Hb & Hc).
   (* the head of what is written, given the head of the piece behind the plain members *)
@@ -169,14 +179,16 @@ Proof.
     - cbn [app] in *. injection Hm as -> _. eexists _, _. split; [reflexivity|now left]. }
   destruct (c =? c_rb) eqn:Ec.
   { (* the closing "]" *)
-    injection H as <-. apply Nat.eqb_eq in Ec. subst c.
+    destruct (scan_members b st true); [|discriminate]. injection H as <-. apply Nat.eqb_eq in Ec. subst c.
     exists (b ++ [c_rb]). split; [|split].
     - rewrite collp_plain by exact Hb. rewrite <- app_assoc. cbn [app collp andb]. reflexivity.
     - intros k. rewrite <- app_assoc. rewrite eng_plain by exact Hb. cbn [app eng_members]. reflexivity.
     - apply Hhead. now left. }
   try rewrite Ec in Hc. rewrite orb_false_r in Hc. apply Nat.eqb_eq in Hc. subst c.
+  destruct (scan_members b st false) as [st1|]; [|discriminate].
   destruct a as [|d inner].
-  { (* "[" last: never closed *) destruct f; [discriminate|]. cbn [members_strict next_sq] in H. discriminate. }
+  { (* "[" last: never closed *)
+    destruct (scan_members [c_lb] st1 false); [|discriminate]. destruct f; [discriminate|]. cbn [members_strict next_sq] in H. discriminate. }
   destruct (cls && (d =? c_colon)) eqn:Ecls.
   { (* a class *)
     apply andb_true_iff in Ecls as [-> Ed]. apply Nat.eqb_eq in Ed. subst d.
@@ -195,7 +207,7 @@ Proof.
   destruct ((d =? c_dot) || (d =? c_eq)) eqn:Esym.
   { (* a collating symbol or an equivalence class naming an ordinary character *)
     destruct (find_close d inner) as [[[|x [|y l]] r]|] eqn:Ef; try discriminate.
-    destruct ((d =? c_eq) && (open_range (negb first) b || dash_with_end r)); [discriminate|].
+    destruct ((d =? c_eq) && (rstate_eqb st1 ROpen || dash_with_end r)); [discriminate|].
     destruct (ordinary x) eqn:Eo; [|discriminate].
     apply find_close_spec in Ef. cbn [app] in Ef. subst inner.
     destruct (IH _ _ _ H) as (body' & Hc1 & He1 & _).
@@ -206,6 +218,7 @@ Proof.
     - intros k. rewrite <- app_assoc. rewrite eng_plain by exact Hb. cbn [app eng_members]. rewrite F1, F3, andb_false_r. apply He1.
     - apply Hhead. now right; right. }
   (* "[" is a plain member *)
+  destruct (scan_members [c_lb] st1 false) as [st2|]; [|discriminate].
   destruct (IH _ _ _ H) as (body' & Hc1 & He1 & Hh1).
   exists (b ++ c_lb :: body'). split; [|split].
   - rewrite collp_plain by exact Hb. rewrite <- app_assoc. f_equal.
@@ -239,9 +252,9 @@ Fixpoint gnu_out (fuel : nat) (cls : bool) (s : list nat) : option (list nat) :=
           end
         else if c =? c_lb then
           let m1 := strip1 c_caret s' in
-          let first := match m1 with x :: _ => negb (x =? c_rb) | [] => true end in
+          let st := match m1 with x :: _ => if x =? c_rb then RStart else RNo | [] => RNo end in
           let m2 := strip1 c_rb m1 in
-          match members_strict (S (length m2)) cls first m2 with
+          match members_strict (S (length m2)) cls st m2 with
           | Some rest => match gnu_out f cls rest with Some o => Some (0 :: o) | None => None end
           | None => None
           end
